@@ -203,14 +203,17 @@ theorem C01_answer_independent_of_history (c1 c2 : Ctx) (h1 : CInv c1) (h2 : CIn
   · rw [(getValLen_node_ok h1 hm1).2, (getValLen_node_ok h2 hm2).2, hb]
 
 /-- non-vacuity: `[[1],{"a":2}]` is well-formed, and a history that fetches the root, takes
-    element 1, looks up `"a"` in it, revisits element 0 and asks its length respects the protocol -/
+    element 1, looks up `"a"` in it, revisits element 0, asks its length and indexes into a null
+    respects the protocol -/
 example : WF #[0x92, 0x91, 1, 0x81, 0xa1, 0x61, 2] ∧
     Spec.respects #[0x92, 0x91, 1, 0x81, 0xa1, 0x61, 2] 0 []
-      [.root, .atIndex ⟨0, []⟩ 1, .prop ⟨0, [.elem 1]⟩ #[0x61], .atIndex ⟨0, []⟩ 0, .len ⟨0, [.elem 0]⟩] := by
+      [.root, .atIndex (.node ⟨0, []⟩) 1, .prop (.node ⟨0, [.elem 1]⟩) #[0x61], .atIndex (.node ⟨0, []⟩) 0,
+       .len (.node ⟨0, [.elem 0]⟩), .atIndex (.lit (.ok .null)) 0] := by
   constructor
   · exact ⟨7, by simp [eagerFuel, skip, skipN, skipPairs, readHdr, hdrOfMarker, hdrFix, arrHdr, mapHdr, strHdr]⟩
   · simp [Spec.respects, Spec.answer, Spec.valueAt, Spec.getAtIndex, Spec.getObjProp, Spec.hdrAt, specPath,
       specChild, specKeyPos, specProp, keyEq, eagerFuel, skip, skipN, skipPairs, readHdr, hdrOfMarker, hdrFix,
-      arrHdr, mapHdr, strHdr, mkNode, Ctx.encodeNode, RAns.handles, ROp.handle?, ROp.nextRoots]
+      arrHdr, mapHdr, strHdr, mkNode, Ctx.encodeNode, RAns.handles, ROp.handle?, Scope.handle?, ROp.nextRoots,
+      Spec.litAnswer]
 
 end SfVerif.Props.C01
